@@ -1,4 +1,5 @@
 import TsVerif.C05.Props
+import TsVerif.C05.VerifyProps
 #print axioms TsVerif.C05.mem_seqOne_iff
 #print axioms TsVerif.C05.mem_seqMany_iff
 #print axioms TsVerif.C05.mem_seq_iff
@@ -12,3 +13,12 @@ import TsVerif.C05.Props
 #print axioms TsVerif.C05.count_Seq
 #print axioms TsVerif.C05.count_SatItem
 #print axioms TsVerif.C05.capture_count_within_quantifier
+#print axioms TsVerif.C05.rep_seqOneS
+#print axioms TsVerif.C05.rep_seqManyS
+#print axioms TsVerif.C05.rep_seqS
+#print axioms TsVerif.C05.rep_verifyItem
+#print axioms TsVerif.C05.satItemV_perm
+#print axioms TsVerif.C05.satItem_permV
+#print axioms TsVerif.C05.verifyAnywhere_iff
+#print axioms TsVerif.C05.verifyAnywhere_sound
+#print axioms TsVerif.C05.verifyAnywhere_complete
